@@ -577,3 +577,7 @@ derive_arith!(
     wrapping_rem,
     checked_rem
 );
+
+#[cfg(kani)]
+#[path = "/verif/kani/arrow-buffer/interval.rs"]
+mod verif_kani;
